@@ -26,7 +26,7 @@ func init() {
 
 type c12Scen struct {
 	Stream  string `json:"stream"`  // fmp4-va fmp4-v+a ts-va ll
-	Fault   string `json:"fault"`   // none 404 500 neterr stall ontracks
+	Fault   string `json:"fault"`   // none 404 500 neterr stall ontracks 503stall
 	At      int    `json:"at"`      // request index of the fault
 	Closers int    `json:"closers"` // 0, 1 or 2 closer threads (each calls Close once)
 	Bound   int    `json:"bound"`
@@ -153,6 +153,9 @@ func c12Harness(sc c12Scen) vsched.Harness {
 						return srvResp{Err: true}
 					case "stall":
 						return srvResp{Status: 200, Stall: true}
+					case "503stall":
+						// a rejection whose body never arrives (a proxy that keeps the connection open)
+						return srvResp{Status: 503, Stall: true}
 					}
 				}
 				if name == "ll.m3u8" {
@@ -286,6 +289,8 @@ func c12Harness(sc c12Scen) vsched.Harness {
 					want["http"] = true
 				case faultHit && sc.Fault == "500":
 					want["http500"] = true
+				case faultHit && sc.Fault == "503stall":
+					want["http503"] = true
 				case faultHit && sc.Fault == "neterr":
 					want["neterr"] = true
 				case faultHit && sc.Fault == "stall":
@@ -319,6 +324,8 @@ func c12Harness(sc c12Scen) vsched.Harness {
 				switch {
 				case strings.Contains(s, "bad status code: 500"):
 					got = "http500"
+				case strings.Contains(s, "bad status code: 503"):
+					got = "http503"
 				case strings.Contains(s, "injected transport error"):
 					got = "neterr"
 				case st.waitErr == errC12OnTracks || strings.Contains(s, errC12OnTracks.Error()):
@@ -362,7 +369,10 @@ func c12Scens(tier string) []c12Scen {
 		for _, stream := range []string{"fmp4-va", "fmp4-v+a", "ts-va", "ll", "ts-big"} {
 			nreq := map[string]int{"fmp4-va": 4, "fmp4-v+a": 9, "ts-va": 3, "ll": 8, "ts-big": 2}[stream]
 			nseg := 2
-			for _, fault := range []string{"none", "404", "500", "neterr", "stall", "ontracks"} {
+			for _, fault := range []string{"none", "404", "500", "neterr", "stall", "ontracks", "503stall"} {
+				if fault == "503stall" && policy != 0 && tier != "thorough" {
+					continue
+				}
 				ats := []int{0}
 				if fault != "none" && fault != "ontracks" {
 					ats = nil
